@@ -59,7 +59,10 @@ def value_to_json(value: object) -> object:
         try:
             value.encode("utf-8")
         except UnicodeEncodeError:
-            return {"string": repr(value)}
+            # ascii() instead of repr(): which characters repr() escapes depends on the
+            # unicode database of the running interpreter, so the document would not be
+            # the same on every Python version
+            return {"string": ascii(value)}
         return value
     if value == ...:
         return {"type": "ellipsis"}
